@@ -18,23 +18,42 @@ import time
 
 from vf.core import Check, REPO, HarnessError, lean_str, lean_bool
 
-MODULES = ["Model.Lex", "Proofs.Lex", "Generated.C13", "Properties.C13"]
+MODULES = ["Model.Lex", "Proofs.Lex", "Proofs.LexRun", "Proofs.LexSkew", "Generated.C13", "Properties.C13"]
 P = "SqlglotModel.Properties.C13."
 THEOREMS = [P + n for n in [
+    # cursor arithmetic
     "advance_pinv",
     "advance_one_pinv",
     "advance_skew_mono",
+    "advance_alnum_pinv",
     "retreat_pinv",
+    "fast_path_position_exact",
+    "fast_string_pinv",
+    "fast_string_exact_when_fixed",
+    # per-step facts about _add and the phase discipline
     "line_col_agree",
     "token_text_is_slice",
     "advance_keeps_phase",
     "tokens_ordered",
     "tokens_inside",
     "next_iteration_phase",
+    # whole runs of lex
+    "lex_tokens_ordered",
+    "lex_tokens_inside",
+    "lex_line_col_agree",
+    "lex_never_skews",
+    "lex_line_col_exact",
+    "base_cfg_clean",
+    "gaps_are_space_or_comment",
+    "lex_consumes_input",
+    "lex_progress",
+    "ascii_wf",
+    # highlight_sql
     "highlight_selects",
     "highlight_context_bounds",
+    # witnesses and table facts
     "fast_string_lone_cr_witness",
-    "fast_string_pinv",
+    "fast_string_fixed_witness",
     "keyword_jump_break_witness",
     "generated_delims_ok",
     "generated_flags_consistent",
@@ -77,7 +96,8 @@ def ref_positions(sql: str):
     ln, ls = 1, 0
     for p, ch in enumerate(sql):
         line.append(ln)
-        col.append(p - ls + 1)
+        # same convention as the proved statement (Proofs/Lex.lean: LC, crlfAdj): the LF of a CRLF pair has the column of its CR
+        col.append(p - ls + 1 - (1 if ch == "\n" and p > 0 and sql[p - 1] == "\r" else 0))
         if ch == "\n" or (ch == "\r" and not (p + 1 < n and sql[p + 1] == "\n")):
             ln += 1
             ls = p + 1
@@ -177,7 +197,9 @@ def token_violation(sql: str, d, toks=None):
         if (t.line, t.col) != (line[t.end], col[t.end]):
             c = cause
             if not c:
-                if t.token_type in STRINGY and re.search(r"\\[\r\n]", lex) and T._ESCAPE_FOLLOW_CHARS:
+                if t.token_type == TT.HEREDOC_STRING and re.match(r"(\$[^$]*[\r\n][^$]*\$)", lex):
+                    c = "heredoc-tag-spans-break"
+                elif t.token_type in STRINGY and re.search(r"\\[\r\n]", lex) and T._ESCAPE_FOLLOW_CHARS:
                     c = "escape-skips-break"
                 elif t.token_type in STRINGY and has_lone_cr(lex[:-1]):
                     c = "lone-cr-literal"
@@ -691,7 +713,7 @@ def correspond(chk: Check) -> list:
     lines, expect, meta = [], [], []
     for d in sorted(by_d, key=lambda x: x or ""):
         lines.append(json.dumps({"op": "cfg", "cfg": cfg_of(d)}, ensure_ascii=True))
-        expect.append("ok")
+        expect.append("ok clean")  # the hypothesis cleanCfg of lex_never_skews, evaluated by the Lean definition on this dialect
         meta.append(("cfg", d, None))
         for s in by_d[d]:
             lines.append(json.dumps({"op": "lex", "sql": enc_sql(s)}))
@@ -748,6 +770,11 @@ def correspond(chk: Check) -> list:
         else:
             chk.corr_cases += 1
             chk.count("op:" + op)
+            if op == "cfg" and g == "ok unclean":
+                chk.broken.append({"kind": "translator", "what": f"C13: the tokenizer configuration of dialect {d or 'base'} fails the hygiene test "
+                                   "cleanCfg (a position repair was reverted, or a delimiter contains CR/LF/blank): lex_never_skews no longer applies"})
+                chk.note(f"cleanCfg fails for dialect {d or 'base'}")
+                continue
             try:
                 same = (g == e) if op == "cfg" else json.loads(g) == json.loads(e)
             except Exception:
@@ -825,20 +852,21 @@ def search(chk: Check, hints: list, budget_s: float) -> None:
 
 # =========================================================================================== entry points
 def validate_char_hypotheses(chk: Check) -> None:
-    """The proofs assume: alphanumeric / digit characters are never CR or LF; CR and LF are whitespace."""
+    """Hypothesis WF of the whole-run theorems, checked over every Unicode scalar value:
+    blanks, CR and LF are str.isspace(); no str.isalnum() character is CR or LF."""
     bad = 0
-    step = chk.pick(1, 1)
-    for cp in range(0, 0x110000, step):
+    for cp in range(0, 0x110000):
         if 0xD800 <= cp <= 0xDFFF:
             continue
         c = chr(cp)
-        if c in "\r\n" and (c.isalnum() or not c.isspace()):
+        if c in " \t\r\n" and not c.isspace():
             bad += 1
-    if "\r".isalnum() or "\n".isalnum() or not "\r".isspace() or not "\n".isspace():
-        bad += 1
-    chk.cov["char_hypotheses"] = {"checked": "CR/LF are whitespace and not alphanumeric", "violations": bad}
+        if c.isalnum() and c in "\r\n":
+            bad += 1
+    chk.cov["char_hypotheses"] = {"checked": "WF: blank/CR/LF are whitespace; alphanumerics are never CR/LF (all code points)",
+                                  "violations": bad}
     if bad:
-        raise HarnessError("CPython character classes contradict the model's hypotheses")
+        raise HarnessError("CPython character classes contradict the model's hypothesis WF")
 
 
 def run(chk: Check) -> None:
@@ -853,6 +881,8 @@ def run(chk: Check) -> None:
         "command tokens (SHOW/FETCH/... swallowing the rest of the statement) make the model answer 'unsupported'; those inputs are "
         "covered by the search oracle on the real code only",
         "comment attachment to tokens (Token.comments) is not modelled; comment spans are a ghost field of the model",
+        "whole-run theorems assume WF (blank/CR/LF are isspace, alphanumerics are never CR/LF) for the shipped class bits; validated over all code points each run",
+        "lex_line_col_exact needs cleanCfg (three repair flags probed behaviourally from the live code + delimiter hygiene); the Lean driver evaluates cleanCfg on every dialect's shipped configuration each run",
         "which token each _parse_* method hands to raise_error is not modelled (oracle only: the reported line/col/highlight must select a lexeme)",
         "line break = LF, or CR not followed by LF (the tokenizer's own convention); the LF of a CRLF pair is given the column of the CR by _advance — "
         "no token can end there except a command-argument STRING",
